@@ -110,6 +110,7 @@ def snapshot(w):
             bm.append([arn, md.expiry if md.expiry == 0 else round(md.expiry - now, 6), setlike(res)])
         insts.append({
             "alive": True, "gen": inst.generation,
+            "boot": [getattr(inst, "boot_steps", 0), bool(getattr(conn, "defer_confirms", False))] if getattr(inst, "waiting", None) is not None else None,
             "timers": setlike(ts), "unacked": setlike(unacked),
             "unack_ids": setlike(list(d.unacknowledged_messages.keys())),
             "bm": setlike(bm),
